@@ -1027,7 +1027,7 @@ def summarize(check, tier, seed, records, wall, extra_bounded=None):
         if r.get("cex") and r["cex"].get("env") is not None and rec.get("harness") and nreplay < 8:
             nreplay += 1
             verdict = native_replay(rec["harness"], rec["shape"], r["cex"]["env"], r["name"], prop, 1e-8, rec.get("sample_seed"))
-        elif rec.get("kind") == "float" and r.get("cex") and r["cex"].get("env"):
+        elif rec.get("kind") == "float" and r.get("cex") is not None and r["cex"].get("env") is not None:
             # a failed float sample IS a failing input of the unmodified float64 code (evaluated in-process, recorded in
             # the replay file); only the separate-interpreter re-run was skipped because its budget of 8 was used up
             verdict = {"verdict": "native-disagrees-with-spec", "in_process": True,
